@@ -148,7 +148,8 @@ impl<'a> PrettyPrinter<'a> {
                     !matches!(child.kind(), SyntaxKind::RightParen | SyntaxKind::Space)
                 })
                 .unwrap_or(children.len().saturating_sub(1));
-            children[i..=j].iter()
+            // `f( )`: only blanks between the parentheses, nothing is left.
+            children.get(i..=j).unwrap_or_default().iter()
         };
 
         let mut peek_hashed_arg = false;
